@@ -62,7 +62,7 @@ def plan(exe, tier):
 def run(tier, replay=None):
     import json
     run_ = verdict.Run(PROP, tier, LEVEL, replay_of=replay)
-    tags = ["gasan"] if tier == "quick" else ["gasan", "casan"]
+    tags = ["gasan", "casan"]     # the second compiler runs every 5th job
     if replay:
         with open(replay) as fh:
             case = json.load(fh)["case"]
